@@ -63,7 +63,7 @@ der_decode_fits!(c18_der_uintref_u64_fits, U64, 8);
 //@ name=c18_der_uintref_u128_fits prop=C18,C11 tier=quick profile=k64 funcs="TryFrom<UintRef> for Uint,TryFrom<AnyRef> for Uint" bound="U128: every byte string of length 0..=19 whose magnitude has at most 16 octets" free_bits=156 assumes="magnitude <= 16 octets"
 der_decode_fits!(c18_der_uintref_u128_fits, U128, 16);
 
-//@ prop=C18,C11 tier=quick profile=k64 funcs="TryFrom<UintRef> for Uint" bound="U64: every byte string of length 9..=11 whose magnitude has more than 8 octets: must be an error, never a panic or a truncated value" free_bits=92 expect=finding:der_oversize_panics
+//@ prop=C18,C11 tier=quick profile=k64 funcs="TryFrom<UintRef> for Uint" bound="U64: every byte string of length 9..=11 whose magnitude has more than 8 octets: must be an error, never a panic or a truncated value" free_bits=92 expect=finding:der_oversize_panics core=C11
 #[kani::proof]
 #[kani::unwind(24)]
 fn c18_der_uintref_u64_oversize() {
